@@ -15,7 +15,8 @@ EXPLANATION = ("Backend hand-over chain. R1 consume-after-decode: in both instan
                "and outside its try block, and every handler falls through to the pop. R4: write_log sits in a loop over all "
                "sinks of the logger with no break/return, guarded only by that sink's own filters. R5: a thread context is "
                "removed only under 'invalid and queue empty and transit buffer empty' (both queue kinds). R6: the transit buffer "
-               "grows by moving events in order. R7: only backend-role code consumes queues and transit buffers.")
+               "grows by moving events in order. R7: only backend-role code consumes queues and transit buffers."
+               ' R6d-i: TransitEventBuffer ring rules. R8-R10 (= C20.R5, C17.R3, C07.R1): the backend sees every registered context, an accepted removal is carried out, the exit drain leaves only when empty.')
 NOT_DECIDED = ("End-to-end exactly-once / order over all schedules, thread exits and limits (behavioural; depends on C01/C02 "
                "holding as behaviour and on value reasoning about the soft/hard limits).")
 ASSUMPTIONS = ["clang CFG without EH edges; exceptional flow is covered by the try/catch structure rules (R3, C10)"]
